@@ -31,16 +31,59 @@ def run_one(name, script, timeout):
     return dict(solver=name, verdict=verdict, seconds=secs, model=model, raw=out[:300])
 
 
+def _parse(name, out, secs):
+    out_err = "\n".join(l for l in out.splitlines() if "(error" in l and "model is not available" not in l and "Cannot get value" not in l)
+    if out_err:
+        return dict(solver=name, verdict="error", seconds=secs, model={}, raw=out[:500])
+    m = re.search(r"^(sat|unsat|unknown|timeout)\s*$", out, re.M)
+    verdict = m.group(1) if m else "unknown"
+    model = {}
+    for mm in re.finditer(r"\((\w+) (\(- (\d+)\)|-?\d+)\)", out):
+        model[mm.group(1)] = -int(mm.group(3)) if mm.group(3) else int(mm.group(2))
+    for mm in re.finditer(r'\((\w+) "((?:[^"]|"")*)"\)', out):
+        model[mm.group(1)] = mm.group(2).replace('""', '"')
+    return dict(solver=name, verdict=verdict, seconds=secs, model=model, raw=out[:300])
+
+
 def decide(script, timeout, logic_note=""):
-    """returns dict(verdict in unsat|sat|inconclusive, model, per_solver)"""
-    import concurrent.futures as cf
-    with cf.ThreadPoolExecutor(max_workers=len(SOLVERS)) as ex:
-        res = list(ex.map(lambda n: run_one(n, script, timeout), list(SOLVERS)))
+    """all solvers run concurrently; unsat needs two of them to answer unsat (the third is then stopped) and none to answer
+    sat or error; sat is taken from the first solver that finds a model, provided none answered unsat"""
+    import tempfile
+    procs = {}
+    t0 = time.time()
+    files = {}
+    for n in SOLVERS:
+        f = tempfile.TemporaryFile(mode="w+")
+        files[n] = f
+        procs[n] = subprocess.Popen(SOLVERS[n](timeout), stdin=subprocess.PIPE, stdout=f, stderr=subprocess.STDOUT, text=True)
+        try:
+            procs[n].stdin.write(script)
+            procs[n].stdin.close()
+        except BrokenPipeError:
+            pass
+    res = {}
+    while len(res) < len(procs) and time.time() - t0 < timeout + 15:
+        for n, p in procs.items():
+            if n in res or p.poll() is None:
+                continue
+            files[n].seek(0)
+            res[n] = _parse(n, files[n].read(), time.time() - t0)
+        vs = [r["verdict"] for r in res.values()]
+        if vs.count("unsat") >= 2 or "sat" in vs or "error" in vs:
+            break
+        time.sleep(0.05)
+    for n, p in procs.items():
+        if p.poll() is None:
+            p.kill()
+            res.setdefault(n, dict(solver=n, verdict="stopped" if len(res) >= 2 else "timeout", seconds=time.time() - t0, model={}, raw=""))
+        elif n not in res:
+            files[n].seek(0)
+            res[n] = _parse(n, files[n].read(), time.time() - t0)
+    res = [res[n] for n in SOLVERS]
     vs = [r["verdict"] for r in res]
     per = [{k: r[k] for k in ("solver", "verdict", "seconds")} for r in res]
     for p in per:
         p["seconds"] = round(p["seconds"], 2)
-    # unsat needs at least two independent solvers to answer unsat and none to answer sat/error
     if vs.count("unsat") >= 2 and not any(v in ("sat", "error") for v in vs):
         return dict(verdict="unsat", model={}, per_solver=per)
     sat = [r for r in res if r["verdict"] == "sat"]
